@@ -366,6 +366,10 @@ func DNSCaching(ttl time.Duration) func(*Attacker) {
 					return nil, &net.DNSError{Err: "no such host", Name: addr}
 				}
 
+				// The returned slice is the resolver's cache entry, shuffling and
+				// compacting it in place would shrink the cached address set.
+				ips = append([]string(nil), ips...)
+
 				// Pick a random IP from each IP family and dial each concurrently.
 				// The first that succeeds wins, the other gets canceled.
 
